@@ -46,7 +46,7 @@ def anyCmd (cmd : String) (hs : List String) : String :=
   | none => "err"
   | some t =>
     if cmd == "A" || cmd == "AN" then
-      (if compilePanics t || nestPanics t then "panic" else s!"ok - | {hexStr (compilePattern t).toList}")
+      (if compilePanics t || nestPanics t then "err compile []" else s!"ok - | {hexStr (compilePattern t).toList}")
     else if cmd == "XA" then
       (match isExhaustive t with
        | .error _ => "panic"
